@@ -207,10 +207,12 @@ func HC01Data() {
 	}
 	// C02 / C15 end to end: the result's string parses, names a registered format, carries at most a
 	// charset parameter, its ancestors are bare and rooted, and the equality helpers accept it
-	if node := Lookup(l1BareType(r.String())); node != nil {
-		c02Check(r, node, "data")
-	} else {
-		vAssert(false, "data:registered-type")
+	if vChoice("dataC02", 2) == 1 {
+		if node := Lookup(l1BareType(r.String())); node != nil {
+			c02Check(r, node, "data")
+		} else {
+			vAssert(false, "data:registered-type")
+		}
 	}
 	vReach("end")
 }
